@@ -312,20 +312,34 @@ def run_cases(ctx, specs, label):
     crashes = [t for t in traces if "crash" in t]
     if crashes:
         raise RuntimeError("harness crash on spec " + canon(crashes[0]["spec"])[:500] + "\n" + crashes[0]["crash"])
-    # model side, one driver process for all cases
-    driver = getattr(mod, "DRIVER", None)
-    all_lines = []
-    for t in traces:
-        all_lines.extend(l[0] for l in t["lines"])
-    outs = run_driver(driver, all_lines) if driver and all_lines else []
-    cmp = getattr(mod, "compare", default_compare)
-    pos = 0
-    for t in traces:
+    # model side, one driver process per driver file for all cases (a trace may name its own
+    # driver with key "driver"; default: the module's DRIVER)
+    default_driver = getattr(mod, "DRIVER", None)
+    by_driver = {}
+    for idx, t in enumerate(traces):
+        d = t.get("driver", default_driver)
+        if d and t["lines"]:
+            by_driver.setdefault(d, []).append(idx)
+    outs_for = {}
+    for d, idxs in by_driver.items():
+        all_lines = []
+        for idx in idxs:
+            all_lines.extend(l[0] for l in traces[idx]["lines"])
+        res = run_driver(d, all_lines)
+        pos = 0
+        for idx in idxs:
+            n = len(traces[idx]["lines"])
+            outs_for[idx] = res[pos:pos + n]
+            pos += n
+    cmp_default = getattr(mod, "compare", default_compare)
+    cmp_by_driver = getattr(mod, "COMPARE", {})
+    for idx, t in enumerate(traces):
         n = len(t["lines"])
-        mo = outs[pos:pos + n] if driver else []
-        pos += n
+        driver = t.get("driver", default_driver) if idx in outs_for else None
+        mo = outs_for.get(idx, [])
+        cmp = cmp_by_driver.get(driver, cmp_default)
         ctx.evaluations += 1
-        ctx.traces += 1 if n else 0
+        ctx.traces += 1
         dis = None
         for i, (inp, impl) in enumerate(t["lines"]):
             if not driver:
@@ -350,8 +364,9 @@ def run_cases(ctx, specs, label):
             ctx.count(k, v)
         if mod.nontrivial(t):
             ctx.nontrivial_hashes.add(case_hash(t["spec"]))
-        if len(ctx.samples) < 3 and n:
-            ctx.samples.append({"spec": t["spec"], "first_lines": [l[0] for l in t["lines"][:6]]})
+        if len(ctx.samples) < 3:
+            ctx.samples.append({"spec": t["spec"], "first_lines": [l[0] for l in t["lines"][:6]],
+                                "hist": t.get("meta", {}).get("hist", {})})
 
 
 def write_replay(pid, kind, payload):
